@@ -305,6 +305,8 @@ func alphabet(tier string) []Step {
 		R(Req{Op: "DeleteTask", ID: "t"}),
 		R(Req{Op: "CreateTpl", ID: "p", Script: "q1"}),
 		R(Req{Op: "CreateTpl", ID: "p2", Script: "qv"}),
+		R(Req{Op: "CreateTpl", ID: "p2", Script: "qi"}), // declares its dbrp
+		u("t", func(q *Req) { q.Tpl = "p2"; q.DBRPs = "d2" }),
 		R(Req{Op: "UpdateTpl", ID: "p", Script: "q2"}),
 		R(Req{Op: "UpdateTpl", ID: "p", Script: "qv"}),
 		R(Req{Op: "UpdateTpl", ID: "p", NewID: "p2"}),
@@ -315,6 +317,10 @@ func alphabet(tier string) []Step {
 		a = append(a,
 			c("t2", "sf", "", "d1", "", "enabled"),
 			c("t2", "sb", "", "d1", "", "enabled"),
+			c("t", "si", "", "", "", "enabled"),
+			u("t", func(q *Req) { q.Script = "s1" }),
+			R(Req{Op: "CreateTpl", ID: "p2", Script: "qb"}),
+			R(Req{Op: "UpdateTpl", ID: "p", Script: "qi"}),
 			u("t2", func(q *Req) { q.DBRPs = "d2" }),
 			c("t", "sx", "", "d1", "", ""),
 			u("t2", func(q *Req) { q.Status = "enabled" }),
@@ -365,6 +371,19 @@ func scenarios() [][]Step {
 		// batch task whose query is outside its dbrps: the definition is accepted, the start fails
 		{c("t", "sb", "", "d2", "", "enabled"), up(Req{ID: "t", DBRPs: "d1"}), restartStep, up(Req{ID: "t", DBRPs: "d2"}), up(Req{ID: "t", Status: "disabled"}), up(Req{ID: "t", Status: "enabled"}), restartStep, R(Req{Op: "DeleteTask", ID: "t"})},
 		{c("t", "sb", "", "d1", "", "enabled"), up(Req{ID: "t", DBRPs: "d2"}), up(Req{ID: "t", NewID: "t2"}), restartStep},
+		// --- type and dbrps are derived from the script in force ---
+		// plain task moved to a template that declares its dbrp; reload; back to a template without, with and without dbrps
+		{ct("p", "q1"), ct("p2", "qi"), c("t", "s1", "", "d1", "", "enabled"), up(Req{ID: "t", Tpl: "p2"}), restartStep, up(Req{ID: "t", Tpl: "p"}), up(Req{ID: "t", Tpl: "p2"}), up(Req{ID: "t", Tpl: "p", DBRPs: "d2"}), restartStep},
+		// task of a declaring template moved to a plain template together with dbrps; declaring template + dbrps is rejected
+		{ct("p", "qi"), ct("p2", "q2"), c("t", "", "p", "", "", "enabled"), c("t2", "", "p", "d1", "", ""), up(Req{ID: "t", Tpl: "p2", DBRPs: "d1"}), up(Req{ID: "t", Tpl: "p", DBRPs: "d2"}), up(Req{ID: "t", Status: "disabled"}), up(Req{ID: "t", Status: "enabled"})},
+		// stream task moved to a batch template and back: the type follows, the executing task is reloaded only by a restart
+		{ct("p", "q1"), ct("p2", "qb"), c("t", "s1", "", "d1", "", "enabled"), up(Req{ID: "t", Tpl: "p2"}), restartStep, up(Req{ID: "t", Tpl: "p"}), restartStep, ut("p", "qb", ""), ut("p2", "q1", "")},
+		// plain tasks: script with a declaration <-> script without
+		{c("t", "si", "", "d1", "", ""), c("t", "si", "", "", "", "enabled"), up(Req{ID: "t", Script: "s1"}), up(Req{ID: "t", Script: "s1", DBRPs: "d2"}), up(Req{ID: "t", Script: "si", DBRPs: "d1"}), up(Req{ID: "t", Script: "si"}), up(Req{ID: "t", Script: "sb"}), restartStep},
+		// template update between declaring and not declaring scripts: enabled tasks lose their dbrps and the update is rejected
+		{ct("p", "qi"), c("t", "", "p", "", "", ""), ut("p", "q1", ""), up(Req{ID: "t", Status: "enabled"}), up(Req{ID: "t", DBRPs: "d1"}), restartStep, ut("p", "qi", ""), ut("p", "q2", ""), restartStep},
+		// rejected template update towards a declaring script: the rolled back tasks keep their own dbrps
+		{ct("p", "q1"), c("t", "", "p", "d1", "", "enabled"), c("t2", "", "p", "d2", "", "enabled"), Step{Kind: "env", Up: false}, ut("p", "qf", ""), Step{Kind: "env", Up: true}, restartStep, ut("p", "qf", ""), restartStep},
 		// template ids where one is a prefix of the other: deleting / renaming one must not touch the other's tasks
 		{ct("p", "q1"), ct("p2", "q2"), c("t", "", "p2", "d1", "", "enabled"), c("t2", "", "p", "d1", "", ""), R(Req{Op: "DeleteTpl", ID: "p"}), ut("p2", "q1", ""), restartStep},
 		{ct("p", "q1"), ct("p2", "q2"), c("t", "", "p2", "d1", "", "enabled"), c("t2", "", "p", "d1", "", ""), R(Req{Op: "DeleteTpl", ID: "p2"}), ut("p", "q2", ""), restartStep},
@@ -433,6 +452,22 @@ func (rn *runner) runAll(jobs []job, workers int) []outcome {
 // maxHangs: after that many stop sequences that never returned the rest of the run is skipped.
 const maxHangs = 3
 
+// runChunked runs the jobs on the worker pool a chunk at a time and hands every outcome to use, in job
+// order; the recorded events of a chunk are dropped once written (a level of the thorough tier has 10^5
+// histories: keeping all their events until the level is complete costs tens of GB).
+func (rn *runner) runChunked(jobs []job, workers int, use func(k int, o outcome)) {
+	const chunk = 512
+	for a := 0; a < len(jobs); a += chunk {
+		b := a + chunk
+		if b > len(jobs) {
+			b = len(jobs)
+		}
+		for i, o := range rn.runAll(jobs[a:b], workers) {
+			use(a+i, o)
+		}
+	}
+}
+
 func emit(t *rt.Trace, o outcome) {
 	for i, e := range o.evs {
 		if i == 0 {
@@ -485,12 +520,11 @@ func Run(r *rt.Run) error {
 				jobs = append(jobs, job{h: h, up: true, crash: -1})
 			}
 		}
-		res := rn.runAll(jobs, workers)
 		var next [][]Step
-		for k, o := range res {
+		rn.runChunked(jobs, workers, func(k int, o outcome) {
 			if o.skipped {
 				stats["skipped_after_hangs"]++
-				continue
+				return
 			}
 			emit(t, o)
 			stats["histories"]++
@@ -507,7 +541,7 @@ func Run(r *rt.Run) error {
 					ntx int
 				}{jobs[k].h, o.ntx})
 			}
-		}
+		})
 		level = next
 	}
 	// B3: crash at every transaction boundary of the last request of every short history, restart on
@@ -524,15 +558,14 @@ func Run(r *rt.Run) error {
 				}
 			}
 		}
-		res := rn.runAll(jobs, workers)
-		for _, o := range res {
+		rn.runChunked(jobs, workers, func(_ int, o outcome) {
 			if o.skipped {
 				stats["skipped_after_hangs"]++
-				continue
+				return
 			}
 			emit(t, o)
 			stats["crash_then_continue"]++
-		}
+		})
 	}
 	// the named scenarios, every transaction boundary of every request a crash point
 	for _, sc := range scenarios() {
@@ -593,8 +626,12 @@ func Run(r *rt.Run) error {
 			}
 		}
 	}
-	resR := make([]outcome, len(jobsR))
-	{
+	for a := 0; a < len(jobsR); a += 256 {
+		b := a + 256
+		if b > len(jobsR) {
+			b = len(jobsR)
+		}
+		resR := make([]outcome, b-a)
 		var wg sync.WaitGroup
 		ch := make(chan int)
 		for i := 0; i < workers; i++ {
@@ -603,28 +640,28 @@ func Run(r *rt.Run) error {
 				defer wg.Done()
 				for k := range ch {
 					if hangs.Load() >= maxHangs {
-						resR[k] = outcome{skipped: true}
+						resR[k-a] = outcome{skipped: true}
 						continue
 					}
-					resR[k] = rn.runRandom(jobsR[k], crashAt[k])
+					resR[k-a] = rn.runRandom(jobsR[k], crashAt[k])
 				}
 			}()
 		}
-		for k := range jobsR {
+		for k := a; k < b; k++ {
 			ch <- k
 		}
 		close(ch)
 		wg.Wait()
-	}
-	for k, o := range resR {
-		if o.skipped {
-			stats["skipped_after_hangs"]++
-			continue
+		for i, o := range resR {
+			if o.skipped {
+				stats["skipped_after_hangs"]++
+				continue
+			}
+			emit(t, o)
+			t.Distinct(keys(jobsR[a+i]))
+			stats["random_histories"]++
+			stats["crash_points"] += o.nsnaps
 		}
-		emit(t, o)
-		t.Distinct(keys(jobsR[k]))
-		stats["random_histories"]++
-		stats["crash_points"] += o.nsnaps
 	}
 	for k, v := range stats {
 		r.Extra[k] = v
